@@ -35,8 +35,11 @@ pub fn replay() {
         let short = short_texts(&vec, &t);
         let long: Vec<String> = vec["long"].as_array().unwrap().iter().map(|r| rules::rule_text(r, &t)).collect();
         let mut rng = Rng::new(seed.wrapping_mul(77).wrapping_add(vec["seed"].as_u64().unwrap_or(0)));
-        for _ in 0..nwords {
-            let wt = gen_word_text(&mut rng, true);
+        // the group-letter stratum is run on a word around every cardinal of the inventory (each group is a class of the WHOLE inventory)
+        let sweep_words: Vec<String> = if kind == "group-sweep" { t.cards.iter().flat_map(|(g, _)| [format!("a{g}"), format!("{g}a")]).collect() } else { vec![] };
+        let nw = if kind == "group-sweep" { sweep_words.len() } else { nwords };
+        for wi in 0..nw {
+            let wt = if kind == "group-sweep" { sweep_words[wi].clone() } else { gen_word_text(&mut rng, true) };
             let Ok(word) = v::parse_word(&wt, &al) else { continue };
             sum.vectors += 1; sum.count(&kind, 1);
             let a = run_rules(&short, &word, 20_000, false);
